@@ -4,7 +4,7 @@ package bucketteer
 // written to /repo).
 //
 //	bkt <file hex> <sig hex>    NewReader(bytes.NewReader(file)); when it opens: Meta(), Has(sig), Has of signatures
-//	                            with the first and last prefix.   Answer: ok | err (class of NewReader)
+//	                            with the first and last prefix.   Answer: err | ok <Has(sig): t, f or e(rror)>
 //
 // Valid files: the real Writer always emits all 65536 prefixes (a 1.2 MB file); it is used once, with the header fields
 // mutated.  The bulk of the structure-aware mutation runs on small files laid out exactly like the writer's
@@ -37,13 +37,19 @@ func c12ExecBkt(op string) string {
 		var sig [64]byte
 		copy(sig[:], sigb)
 		r.Meta()
-		r.Has(sig)
+		has, herr := r.Has(sig)
 		sig[0], sig[1] = 0, 0
 		r.Has(sig)
 		sig[0], sig[1] = 0xff, 0xff
 		r.Has(sig)
 		r.Close()
-		return "ok"
+		switch {
+		case herr != nil:
+			return "ok e"
+		case has:
+			return "ok t"
+		}
+		return "ok f"
 	}
 	return "bad-op"
 }
@@ -211,6 +217,12 @@ func TestVerifC12(t *testing.T) {
 	}
 	r := c12.NewRun("TestVerifC12")
 	defer r.Close()
+	r.Print = func(op string, res c12.Result) string {
+		if res.Class == "ok" || res.Class == "err" {
+			return res.Answer
+		}
+		return res.Class
+	}
 	dir, err := os.MkdirTemp("", "verif-c12-bkt-")
 	if err != nil {
 		t.Fatal(err)
